@@ -1,40 +1,49 @@
-(* C46 -- property theorems (statements only; proofs are in C46Proofs.v). *)
+(* C46 -- property theorems for the current code: ~MFrontLock posts the semaphore if and only if the lock is still
+   held (statements only; proofs are in C46Proofs.v).  Selected by the check when the traces of the real code show
+   that behaviour (an exit() inside a protected section is followed by a destructor post, an exit() outside is not). *)
 From Coq Require Import List Arith.
 From C46 Require Import C46Spec C46Model C46Proofs.
 Import ListNotations.
 
-(* Code whose static destructor leaves the semaphore value alone (sem_close, nothing): in every reachable state of
-   every history -- any number of processes, any interleaving of sem_open / sem_wait / sem_post, processes ending
-   (exit, _exit, kill) at any point, the value persisting across runs -- at most one process holds the lock, the
-   available permits plus the holders never exceed the one permit the semaphore was created with, and at most one
-   process is inside a protected section. *)
-Theorem C46_mutual_exclusion : forall tr s, steps DtorQuiet init tr s ->
-  mutual_exclusion (procs s) /\ never_more_than_created (sem s) (procs s) /\ inside (procs s) <= 1.
-Proof. exact mutex_quiet. Qed.
+(* In every reachable state of every history -- any number of processes, any interleaving of sem_open / sem_wait /
+   sem_post, processes calling exit() or being killed at any control point, inside a protected section included,
+   the value persisting across runs -- at most one process holds the lock, at most one is inside a protected
+   section, and the single permit is conserved: value + holders + (holders that were killed) = 1. *)
+Theorem C46_mutual_exclusion : forall tr s, steps DtorRelease init tr s ->
+  mutual_exclusion (procs s) /\ inside (procs s) <= 1 /\ conservation (sem s) (procs s) (lost s).
+Proof. exact mutex_release. Qed.
 Print Assumptions C46_mutual_exclusion.
 
-(* Either kind of code: holders (and permits + holders) are bounded by one plus the number of destructor posts. *)
-Theorem C46_holders_bounded_by_destructor_posts : forall k tr s, steps k init tr s ->
-  holders (procs s) <= 1 + nexitpost tr /\
-  (forall v, sem s = Some v -> v + holders (procs s) <= 1 + nexitpost tr).
-Proof. exact bound_any. Qed.
-Print Assumptions C46_holders_bounded_by_destructor_posts.
+(* No process killed (every process that ends does so through exit(), wherever it is): value + holders = 1 whenever
+   the semaphore exists, and once every process has ended the value is exactly 1 -- no drift, no leak. *)
+Theorem C46_value_conserved : forall tr s, steps DtorRelease init tr s -> nkill tr = 0 ->
+  (forall v, sem s = Some v -> v + holders (procs s) = 1) /\
+  (all_done (procs s) -> forall v, sem s = Some v -> v = 1).
+Proof. exact release_final_nokill. Qed.
+Print Assumptions C46_value_conserved.
 
-(* The executable acceptor run on the traces of the real code is sound and complete for the step relation. *)
-Theorem C46_acceptor_sound : forall k tr, accepts k tr = true -> exists s, steps k init tr s.
-Proof. exact accepts_sound. Qed.
-Print Assumptions C46_acceptor_sound.
+(* The same with the weaker hypothesis that no process was killed while it held the lock. *)
+Theorem C46_value_one_when_all_exited : forall tr s, steps DtorRelease init tr s -> lost s = 0 ->
+  all_done (procs s) -> forall v, sem s = Some v -> v = 1.
+Proof. exact release_final. Qed.
+Print Assumptions C46_value_one_when_all_exited.
 
-Theorem C46_acceptor_complete : forall k tr s, steps k init tr s -> accepts k tr = true.
-Proof. exact accepts_complete. Qed.
-Print Assumptions C46_acceptor_complete.
+(* The quantification over "exit at any control point" is not vacuous: exit() (and a kill) is a possible step of
+   every live process in every state. *)
+Theorem C46_exit_possible_everywhere : forall k s p c, nth_error (procs s) p = Some c -> alive c = true ->
+  (exists s', step k s (Exit p (dtor_posts k c)) s') /\ (exists s', step k s (Kill p) s').
+Proof. intros k s p c N A; split; [exact (exit_enabled k s p c N A) | exact (kill_enabled k s p c N A)]. Qed.
+Print Assumptions C46_exit_possible_everywhere.
 
-Theorem C46_run_is_steps : forall k tr s s', run k s tr = Some s' <-> steps k s tr s'.
-Proof. intros; split; [apply run_sound | apply run_complete]. Qed.
-Print Assumptions C46_run_is_steps.
+(* exit() inside a protected section: the destructor gives the permit back. *)
+Theorem C46_exit_inside_section_releases : exists s, steps DtorRelease init (exit_inside true) s /\
+  all_done (procs s) /\ sem s = Some 1.
+Proof. exact release_exit_inside. Qed.
+Print Assumptions C46_exit_inside_section_releases.
 
-(* Every prefix of a trace accepted for quiet-destructor code is a state with mutual exclusion. *)
-Theorem C46_accepted_trace_prefixes_exclusive : forall a b, accepts DtorQuiet (a ++ b) = true ->
-  exists s, run DtorQuiet init a = Some s /\ mutual_exclusion (procs s) /\ inside (procs s) <= 1.
+(* Every prefix of a trace accepted for the current code is a state with mutual exclusion and conservation. *)
+Theorem C46_accepted_trace_prefixes_exclusive : forall a b, accepts DtorRelease (a ++ b) = true ->
+  exists s, run DtorRelease init a = Some s /\ mutual_exclusion (procs s) /\ inside (procs s) <= 1 /\
+            conservation (sem s) (procs s) (lost s).
 Proof. exact accepted_prefixes_mutex. Qed.
 Print Assumptions C46_accepted_trace_prefixes_exclusive.
